@@ -31,7 +31,9 @@ MINUTES_OF["60min"] = 60
 # raw minutes of history per run (bars x interval); the quick tier keeps worlds small enough for its wall budget
 MAX_MINUTES = {"quick": 1800, "thorough": 18000}
 PERIOD_PRESETS = [(2, 3), (3, 2), (2, 4), (4, 2), (3, 5), (1, 2), (2, 1), (2, 2), (2, 3, 4), (3, 4, 6), (6, 4, 3), (5, 7), (4, 6, 10), (1, 3), (3, 1)]
-KWARG_POOL = [("tag", "abc"), ("n", 7), ("x", None), ("lst", [1, 2, 3]), ("d", {"a": 1}), ("flag", False), ("amount", "1.5"), ("empty", "")]
+KWARG_POOL = [("tag", "abc"), ("n", 7), ("x", None), ("lst", [1, 2, 3]), ("d", {"a": 1}), ("flag", False), ("amount", "1.5"), ("empty", ""),
+              # names a trigger class might one day want for itself: today they are the user's and reach the action untouched
+              ("name", "rebalance"), ("label", "weekly"), ("priority", 2), ("enabled", False), ("once", True), ("key", "k1")]
 
 
 # ------------------------------------------------------------------------------------------------ spec -> real object
@@ -257,7 +259,8 @@ def generate(seed: int, tier: str = "quick") -> dict:
         return [a, b]
 
     def gen_mult():
-        return rp.choice([1, 1, 2, 2, 3, 4, 5, 6, 10, max(1, nb // 2), max(1, nb - 1), nb, nb + 3])
+        day = 1440 // k if 1440 % k == 0 else 1  # whole days (a timedelta with days set and seconds == 0)
+        return rp.choice([1, 1, 2, 2, 3, 4, 5, 6, 10, max(1, nb // 2), max(1, nb - 1), nb, nb + 3, day, day * rp.choice([1, 2, 7])])
 
     def gen_pending(mult):
         return k * rp.choice([0, 0, 0, 0, 1, 2, 3, mult, nb])
